@@ -147,6 +147,17 @@ CLAIMED['C19'] = dict(
           "lagged in-profile velocity."),
     ref="DESIGN.md section 4 C19")
 
+CLAIMED['C09'] = dict(
+    technique="Coq proofs over R (rotation lemmas, field with sqrt 3) about operation sequences and formulas regenerated from the source by translators T-K and T-A",
+    text=("Theorems about the affine operation sequences regenerated from TwoRollPass.contour_lines / ThreeRollPass.contour_lines, for "
+          "every roll contour (any polyline) and every gap: the two-roll contours are images of each other under a half turn, face "
+          "vertices lie at +-gap/2, the opening of a point at depth d is gap + 2d; the three contours map onto each other under 120 "
+          "degree turns; gap <-> height (two-roll) and gap <-> inscribed circle diameter / height (three-roll) formulas are mutually "
+          "inverse. Face separation of three-roll passes and the usable span are checked on real passes for every catalogue groove "
+          "(partial). Two known findings (gap exactly 0 in three-roll passes; FlatGroove height)."),
+    note=("Trusted: Coq kernel; Reals axioms; translators T-K and T-A; shapely translate/rotate sampled against the closed formulas."),
+    ref="DESIGN.md section 4 C09")
+
 NOT_YET = {}
 
 
